@@ -351,6 +351,14 @@ func runC08(r *vf.Runner) {
 		c.Spec = genSpec(rnd.Fork(), o)
 		r.Case(c, func(t *vf.T) { runC08case(t, c) })
 	}
+	// Shared producers: a multi-shard slice that cannot be pipelined into (Materialize pragma, or
+	// the Result of an earlier invocation) is consumed twice in one invocation, directly and
+	// through a shuffle of every width, in both orders. The compiler memoises compiled slices
+	// per (slice, partition count); the two consumers must not be handed each other's tasks.
+	for _, c := range genC08shared() {
+		c := c
+		r.Case(c, func(t *vf.T) { runC08case(t, c) })
+	}
 	// cache operators: the driver's view of the shard files is frozen into the invocation; the
 	// worker must compile the same graph whatever files exist when it compiles
 	for _, kind := range []string{"cache", "cachepartial"} {
@@ -389,6 +397,67 @@ func runC08(r *vf.Runner) {
 			t.Nontrivial("")
 		})
 	}
+}
+
+func genC08shared() (out []c08case) {
+	kv := []string{"int", "string"}
+	for _, prod := range []string{"materialize", "arg"} {
+		for pshards := 1; pshards <= 3; pshards++ {
+			if prod == "arg" && pshards != 3 {
+				continue // the Result argument built by runC08case has 3 shards
+			}
+			for _, a := range []string{"none", "filter", "map", "reshard1", "reshard2", "reshard3", "reshuffle"} {
+				for _, b := range []string{"reshard1", "reshard2", "reshard3", "reshuffle", "repartition", "cogroup", "fold"} {
+					for order := 0; order < 2; order++ {
+						var nodes []PNode
+						p := 0
+						if prod == "arg" {
+							nodes = []PNode{{Op: "arg", Arg: 0}}
+						} else {
+							nodes = []PNode{{Op: "readerfunc", Shards: pshards, Rows: 9, Out: kv, Salt: 7, Mod: 10},
+								{Op: "map", In: []int{0}, Out: kv, Src: []int{0, 1}, Salt: 1, Pragma: "materialize"}}
+							p = 1
+						}
+						consumer := func(kind string) int {
+							switch kind {
+							case "none":
+								return p
+							case "filter":
+								nodes = append(nodes, PNode{Op: "filter", In: []int{p}, P: 3, Salt: 2})
+							case "map":
+								nodes = append(nodes, PNode{Op: "map", In: []int{p}, Out: kv, Src: []int{0, 1}, Salt: 3})
+							case "reshard1", "reshard2", "reshard3":
+								nodes = append(nodes, PNode{Op: "reshard", In: []int{p}, Shards: int(kind[7] - '0')})
+							case "reshuffle":
+								nodes = append(nodes, PNode{Op: "reshuffle", In: []int{p}})
+							case "repartition":
+								nodes = append(nodes, PNode{Op: "repartition", In: []int{p}, Salt: 4})
+							case "cogroup":
+								nodes = append(nodes, PNode{Op: "cogroup", In: []int{p}})
+							case "fold":
+								nodes = append(nodes, PNode{Op: "fold", In: []int{p}, Salt: 5})
+							}
+							return len(nodes) - 1
+						}
+						var ia, ib int
+						if order == 0 {
+							ia = consumer(a)
+							ib = consumer(b)
+							nodes = append(nodes, PNode{Op: "cogroup", In: []int{ia, ib}})
+						} else {
+							ib = consumer(b)
+							ia = consumer(a)
+							nodes = append(nodes, PNode{Op: "cogroup", In: []int{ib, ia}})
+						}
+						for _, comb := range []bool{false, true} {
+							out = append(out, c08case{Spec: Spec{Nodes: nodes}, WithArg: prod == "arg", Combiners: comb})
+						}
+					}
+				}
+			}
+		}
+	}
+	return out
 }
 
 func argTag(c c08case) string {
